@@ -9,6 +9,7 @@ Exit codes (DESIGN.md section 3):
 from __future__ import annotations
 
 import ast
+import copy
 import json
 import os
 import sys
@@ -584,3 +585,92 @@ def classify_memo_key(key_text: str) -> str:
 
 
 MEMO_DECORATORS = ("cache", "lru_cache", "functools.cache", "functools.lru_cache", "cached", "memoize")
+
+
+def forwarding_problems(caller: ast.FunctionDef, call: ast.Call, callee: ast.FunctionDef, ignore: tuple[str, ...] = ()) -> list[str]:
+    """Keyword-forwarding discipline between a wrapper and the function it delegates to.
+
+    Reports (a) crossed forwarding: `k=v` where both k and v are parameters of the callee, v is a parameter of the caller and k != v;
+    (b) dropped options: a parameter that caller and callee share by name, that the call does not pass, and that the caller uses
+    nowhere else (so the caller accepts it and silently ignores it).
+    """
+    def params(f):
+        return [a.arg for a in f.args.posonlyargs + f.args.args + f.args.kwonlyargs if a.arg not in ("self", "cls")]
+
+    cp, kp = params(caller), params(callee)
+    out = []
+    passed = set()
+    for i, a in enumerate(call.args):
+        if i < len(kp):
+            passed.add(kp[i])
+    for k in call.keywords:
+        if k.arg is None:
+            return []  # **kwargs: cannot decide
+        passed.add(k.arg)
+        if isinstance(k.value, ast.Name) and k.value.id in cp and k.arg in kp and k.value.id in kp and k.arg != k.value.id:
+            out.append(f"`{k.arg}={k.value.id}`: the caller's `{k.value.id}` is passed as the callee's `{k.arg}`")
+        elif k.arg in cp and k.arg in kp and k.arg not in ignore and not any(isinstance(n, ast.Name) and n.id == k.arg for n in ast.walk(k.value)):
+            out.append(f"`{k.arg}={norm(k.value)[:40]}`: the caller's own `{k.arg}` option is replaced by a fixed value")
+    for p in cp:
+        if p in kp and p not in passed and p not in ignore:
+            uses = [n for n in ast.walk(caller) if isinstance(n, ast.Name) and n.id == p and isinstance(n.ctx, ast.Load)]
+            if not uses:
+                out.append(f"option `{p}` is accepted but neither used nor forwarded")
+    return out
+
+
+def _is_constish(e: ast.AST) -> bool:
+    return isinstance(e, ast.Constant) or (isinstance(e, ast.UnaryOp) and isinstance(e.op, ast.USub) and isinstance(e.operand, ast.Constant))
+
+
+class _Subst(ast.NodeTransformer):
+    def __init__(self, m: dict[str, ast.AST]):
+        self.m = m
+
+    def visit_Name(self, n: ast.Name):
+        if isinstance(n.ctx, ast.Load) and n.id in self.m:
+            return ast.copy_location(copy.deepcopy(self.m[n.id]), n)
+        return n
+
+    def visit_BinOp(self, n: ast.BinOp):
+        self.generic_visit(n)
+        if isinstance(n.op, ast.Mult):
+            for a, b in ((n.left, n.right), (n.right, n.left)):
+                if isinstance(a, ast.Constant) and a.value == 1 and not isinstance(a.value, bool):
+                    return b
+                if isinstance(a, ast.UnaryOp) and isinstance(a.op, ast.USub) and isinstance(a.operand, ast.Constant) and a.operand.value == 1:
+                    return ast.copy_location(ast.UnaryOp(op=ast.USub(), operand=b), n)
+        return n
+
+
+def specialise_delegate(mod, fn: ast.FunctionDef, cls: str | None = None) -> ast.FunctionDef:
+    """If fn only delegates (`return self._helper(...)` / `return _helper(...)`) to a private helper of the same module/class,
+    return the helper specialised for this call (constant and plain-name arguments substituted, `1 * x` / `-1 * x` folded);
+    otherwise fn itself. Lets a rule written for one function follow an extract-shared-helper refactor."""
+    body = strip_docstring(fn.body)
+    if not (len(body) == 1 and isinstance(body[0], ast.Return) and isinstance(body[0].value, ast.Call)):
+        return fn
+    call = body[0].value
+    callee = None
+    if is_self_attr(call.func) and cls is not None:
+        callee = mod.methods(cls).get(call.func.attr)
+    elif isinstance(call.func, ast.Name):
+        callee = mod.functions.get(call.func.id)
+    if callee is None or callee is fn or not callee.name.startswith("_") or callee.name.startswith("__"):
+        return fn
+    params = [a.arg for a in callee.args.posonlyargs + callee.args.args if a.arg not in ("self", "cls")]
+    bound: dict[str, ast.AST] = {}
+    for i, a in enumerate(call.args):
+        if isinstance(a, ast.Starred) or i >= len(params):
+            return fn
+        bound[params[i]] = a
+    for k in call.keywords:
+        if k.arg is None:
+            return fn
+        bound[k.arg] = k.value
+    assigned = {n.id for n in ast.walk(callee) if isinstance(n, ast.Name) and isinstance(n.ctx, ast.Store)}
+    m = {p: v for p, v in bound.items() if p not in assigned and (_is_constish(v) or (isinstance(v, ast.Name) and v.id != p))}
+    new = copy.deepcopy(callee)
+    new.body = [_Subst(m).visit(s) for s in new.body]
+    ast.fix_missing_locations(new)
+    return new
